@@ -395,12 +395,17 @@ pub fn do_val(_t: &Tables, k: &str, bs: &str) -> String {
     let targets = list_s(kind.targets());
     let ar = kind.is_aromatic();
     let a0 = Atom::new(parse_kind(k).unwrap());
+    // the public `invert_configuration` and `is_zero`, called directly
+    let mut inv = parse_kind(k).unwrap();
+    inv.invert_configuration();
+    let hz = match &inv { AtomKind::Bracket { hcount: Some(h), .. } => h.is_zero().to_string(), _ => "-".to_string() };
+    let inv_s = kind_s(_t, &inv);
     let ba = bonds.iter().filter(|b| b.is_aromatic()).count();
     let bd = bonds.iter().filter(|b| b.is_directional()).count();
     let atom = Atom { kind, bonds };
     let s = match catch_unwind(AssertUnwindSafe(|| atom.subvalence())) { Ok(v) => v.to_string(), Err(_) => "panic".to_string() };
     let h = match catch_unwind(AssertUnwindSafe(|| atom.suppressed_hydrogens())) { Ok(v) => v.to_string(), Err(_) => "panic".to_string() };
-    format!("T {} # S {} # H {} # AR {} # AA {} {} {} # BA {} # BD {}", targets, s, h, ar, atom.is_aromatic(), a0.is_aromatic(), a0.bonds.len(), ba, bd)
+    format!("T {} # S {} # H {} # AR {} # AA {} {} {} # BA {} # BD {} # IV {} # HZ {}", targets, s, h, ar, atom.is_aromatic(), a0.is_aromatic(), a0.bonds.len(), ba, bd, inv_s, hz)
 }
 
 pub fn do_deb(t: &Tables, k: &str, bos: &str) -> String {
